@@ -189,4 +189,54 @@ theorem C07_lexer_terminates (text : Str) :
     (lexAll text).getLast?.map (·.kind) = some .eof ∧ (lexAll text).length ≤ text.length + 1 :=
   lexGo_ends text.length (text.length + 1) text (by omega)
 
+/-- kinds of token whose value is the very text they were read from (strings and characters are decoded; `<...>` and
+    `:fmt` carry the text after their first character) -/
+def Kind.verbatim : Kind → Bool
+  | .string | .char | .bracketed | .fmt | .error | .eof => false
+  | _ => true
+
+theorem take_take_length {α} (l : List α) (n : Nat) : l.take (l.take n).length = l.take n := by
+  rw [List.length_take]
+  by_cases h : n ≤ l.length
+  · rw [Nat.min_eq_left h]
+  · rw [Nat.min_eq_right (by omega), List.take_length, List.take_of_length_le (by omega)]
+
+/-- **C17 (a token sits where it says).** For names, registers, numbers, `#include`, punctuation and unknown characters:
+    the token read at offset `off` from the text `s` that starts there has `off` as its location, and its value is the
+    text at that offset - so, with `C17_token_in_quoted_line`, the quoted line shows the token at the caret. -/
+theorem C17_token_is_text_at_offset (s : Str) (off : Nat) (hk : Kind.verbatim (tokenAt s off).1.kind = true) :
+    (tokenAt s off).1.off = off ∧ s.take (tokenAt s off).1.value.length = (tokenAt s off).1.value := by
+  cases s with
+  | nil => simp [tokenAt, Kind.verbatim] at hk
+  | cons c cs =>
+    simp only [tokenAt] at hk ⊢
+    by_cases h1 : (isAlpha c || c == 95) = true
+    · rw [if_pos h1]; simp only [symTok]; exact ⟨trivial, take_take_length _ _⟩
+    · rw [if_neg h1] at hk ⊢
+      by_cases h2 : isDigit c = true
+      · rw [if_pos h2]; simp only [intTok]; exact ⟨trivial, take_take_length _ _⟩
+      · rw [if_neg h2] at hk ⊢
+        by_cases h3 : c = 34
+        · rw [if_pos h3] at hk
+          unfold strTok at hk; split at hk <;> simp [Kind.verbatim] at hk
+        · rw [if_neg h3] at hk ⊢
+          by_cases h4 : c = 39
+          · rw [if_pos h4] at hk
+            unfold charTok at hk
+            split at hk
+            · split at hk <;> simp [Kind.verbatim] at hk
+            · simp [Kind.verbatim] at hk
+          · rw [if_neg h4] at hk ⊢
+            by_cases h5 : startsWith (c :: cs) (Str.ofString "#include") = true
+            · rw [if_pos h5]; exact ⟨rfl, take_take_length _ _⟩
+            · rw [if_neg h5] at hk ⊢
+              by_cases h6 : c = 60
+              · rw [if_pos h6] at hk
+                unfold bracketTok at hk; dsimp only [] at hk; split at hk <;> simp [Kind.verbatim] at hk
+              · rw [if_neg h6] at hk ⊢
+                by_cases h7 : c = 58
+                · rw [if_pos h7] at hk
+                  unfold fmtTok at hk; split at hk <;> simp [Kind.verbatim] at hk
+                · rw [if_neg h7]; simp
+
 end Hera
